@@ -22,7 +22,7 @@ def run(d):
         return d,True,{k:sorted(v) for k,v in det.items()}
     finally:
         shutil.rmtree(tmp,ignore_errors=True)
-seeds=[os.path.dirname(m) for m in sorted(glob.glob('seeded/*/meta.json'))]
+seeds=[os.path.dirname(m) for m in sorted(glob.glob(os.environ.get('SEEDROOT','seeded')+'/*/meta.json'))]
 if only: seeds=[s for s in seeds if os.path.basename(s) in only]
 with concurrent.futures.ThreadPoolExecutor(max_workers=int(os.environ.get("MATRIX_JOBS","5"))) as ex:
     for d,applied,det in ex.map(run,seeds):
